@@ -544,6 +544,90 @@ fn pvar_main<S: yash_env::system::GetPid>(
     Box::pin(std::future::ready(yash_env::builtin::Result::new(ExitStatus(0))))
 }
 
+/// The deterministic byte stream of `gen N SEED [K]`: printable bytes, a newline after every K-th
+/// byte if K > 0.
+pub fn gen_stream(n: usize, seed: u64, k: usize) -> Vec<u8> {
+    (0..n)
+        .map(|i| {
+            if k > 0 && i % k == k - 1 {
+                b'\n'
+            } else {
+                33 + (((i as u64).wrapping_mul(7).wrapping_add(seed.wrapping_mul(13)).wrapping_add((i as u64 / 89) * 5)) % 90) as u8
+            }
+        })
+        .collect()
+}
+
+/// `gen N SEED [K]` : write the stream to standard output; status 0, or 1 if the write failed.
+fn gen_main<S>(
+    env: &mut Env<S>,
+    args: Vec<Field>,
+) -> Pin<Box<dyn Future<Output = yash_env::builtin::Result> + '_>>
+where
+    S: yash_env::system::concurrency::WriteAll,
+{
+    Box::pin(async move {
+        let n: usize = args.first().and_then(|f| f.value.parse().ok()).unwrap_or(0);
+        let seed: u64 = args.get(1).and_then(|f| f.value.parse().ok()).unwrap_or(0);
+        let k: usize = args.get(2).and_then(|f| f.value.parse().ok()).unwrap_or(0);
+        let data = gen_stream(n, seed, k);
+        match env.system.write_all(Fd::STDOUT, &data).await {
+            Ok(()) => yash_env::builtin::Result::new(ExitStatus::SUCCESS),
+            Err(_) => yash_env::builtin::Result::new(ExitStatus::FAILURE),
+        }
+    })
+}
+
+/// `sink TAG` : read standard input to the end; log [TAG, length, fnv hash].
+fn sink_main<S>(
+    env: &mut Env<S>,
+    args: Vec<Field>,
+) -> Pin<Box<dyn Future<Output = yash_env::builtin::Result> + '_>>
+where
+    S: yash_env::system::concurrency::ReadAll + yash_env::system::GetPid,
+{
+    Box::pin(async move {
+        let tag = args.first().map(|f| f.value.clone()).unwrap_or_default();
+        let st = status_of(env);
+        let r = env.system.read_all(Fd::STDIN).await;
+        let (len, hash, ok) = match &r {
+            Ok(d) => (d.len(), crate::util::fnv(d), true),
+            Err(_) => (0, 0, false),
+        };
+        push_event(Event {
+            pid: pid_of(env),
+            kind: "probe",
+            args: vec![tag, len.to_string(), format!("{hash:016x}"), if ok { "ok".into() } else { "read-error".into() }],
+            status: st,
+        });
+        yash_env::builtin::Result::new(if ok { ExitStatus::SUCCESS } else { ExitStatus::FAILURE })
+    })
+}
+
+/// `relay` : copy standard input to standard output with `read`/`write` calls of odd sizes.
+fn relay_main<S>(
+    env: &mut Env<S>,
+    _args: Vec<Field>,
+) -> Pin<Box<dyn Future<Output = yash_env::builtin::Result> + '_>>
+where
+    S: yash_env::system::Read + yash_env::system::concurrency::WriteAll,
+{
+    Box::pin(async move {
+        let mut buf = [0u8; 37];
+        loop {
+            match env.system.read(Fd::STDIN, &mut buf).await {
+                Ok(0) => return yash_env::builtin::Result::new(ExitStatus::SUCCESS),
+                Ok(n) => {
+                    if env.system.write_all(Fd::STDOUT, &buf[..n]).await.is_err() {
+                        return yash_env::builtin::Result::new(ExitStatus::FAILURE);
+                    }
+                }
+                Err(_) => return yash_env::builtin::Result::new(ExitStatus::FAILURE),
+            }
+        }
+    })
+}
+
 /// `ret N` : return N, no other effect.
 fn ret_main<S>(
     _env: &mut Env<S>,
@@ -768,6 +852,8 @@ pub fn generic_probes<S>() -> ExtraBuiltins<S>
 where
     S: yash_env::system::GetPid
         + yash_env::system::concurrency::WriteAll
+        + yash_env::system::concurrency::ReadAll
+        + yash_env::system::Read
         + yash_env::system::Isatty
         + 'static,
 {
@@ -776,6 +862,9 @@ where
         ("echo", Builtin::new(Type::Mandatory, echo_main::<S>)),
         ("ret", Builtin::new(Type::Mandatory, ret_main::<S>)),
         ("pvar", Builtin::new(Type::Mandatory, pvar_main::<S>)),
+        ("gen", Builtin::new(Type::Mandatory, gen_main::<S>)),
+        ("sink", Builtin::new(Type::Mandatory, sink_main::<S>)),
+        ("relay", Builtin::new(Type::Mandatory, relay_main::<S>)),
     ]
 }
 
